@@ -9,15 +9,20 @@
    (gather at the owner, scatter at the receiver in neighbour order); [allreduce_sum]
    returns the same value on every rank.
 
-   TRUSTED, NOT PROVED: that the MPI runtime realises these pure functions (Allgather,
-   Alltoall, matched Isend/Irecv pairs, Allreduce), i.e. progress, absence of deadlock and
-   independence of message arrival order.  Covered only by the mpirun correspondence runs.
+   TRUSTED, NOT PROVED: that the MPI runtime realises these pure functions for the collectives
+   (Allgather, Alltoall, Allreduce) and for the point-to-point exchanges other than the ghost
+   exchange of mul/residual; progress and absence of deadlock.  Independence of the message
+   ARRIVAL ORDER: proved for the ghost exchange in the message-passing model DistMsg.v
+   (C11_any_arrival_order_deterministic, C11_ghost_exchange_any_arrival_order, trusting MPI's
+   non-overtaking rule); for every other exchange (transpose, product, remote_rows, constructor)
+   the request discipline that the theorem needs is checked on the real call sequence by the PMPI
+   shim in every mpirun correspondence run.
 
    "any S": holds for every Scalar record (floats with NaN/Inf included);
    "ring": for every commutative ring with decidable equality, closed at Qc. *)
 From Coq Require Import Sorted.
 From Coq Require Import Permutation.
-From Amgcl Require Import Scalar QcInst Vec Crs Kernels KernelsProofs MatOps MatOpsProofs Cheby Dist DistProofs DistProofsB DistProofsT DistProofsP DistProofsG.
+From Amgcl Require Import Scalar QcInst Vec Crs Kernels KernelsProofs MatOps MatOpsProofs Cheby Dist DistProofs DistProofsB DistProofsT DistProofsP DistProofsG DistMsg DistMsgProofs.
 Local Open Scope nat_scope.
 
 (* ------------------------------------------------------------------ *)
@@ -278,6 +283,89 @@ Example C11_old_gershgorin_stale_dia :
   vec_eqb (dist_gershgorin true (split A [2] [2])) [qc 1 1] = true /\
   vec_eqb (dist_gershgorin true (split A [1; 1] [1; 1])) [qc 1 1; qc 1 1] = true /\
   vec_eqb [gershgorin true A] [qc 1 1] = true.
+Proof. vm_compute. repeat split; reflexivity. Qed.
+
+(* ------------------------------------------------------------------ *)
+(* "for any message arrival order the MPI runtime produces" -- the message-passing model DistMsg.v.
+   A rank's behaviour is its trace of MPI_Isend / MPI_Irecv / completion calls (what harness/pmpi_trace.hpp
+   records through the PMPI interface) plus the writes to its send buffers.  The runtime's freedom: a pending
+   send reads its buffer at ANY point up to its completion call (or ever after, if the program never completes
+   it) [cap]; of two simultaneously pending receives into the same buffer either may land last [clob].
+   TRUSTED: MPI's non-overtaking rule (the k-th receive posted for (source, tag) matches the k-th send posted for
+   (dest, tag)), and that the recorded trace is what the library does.  Progress / deadlock: not modelled. *)
+
+(* A: if on every rank no send buffer is written while a send from it is pending (the program completes its sends
+   before reusing the buffer) and no two simultaneously pending receives share a buffer, then EVERY admissible
+   schedule delivers, to every receive, what the atomic schedule (payload = buffer content at the MPI_Isend, no
+   clobbering) delivers -- any payload type, any number of ranks, any trace. *)
+Theorem C11_any_arrival_order_deterministic (V : Type) (W : world V) :
+  (forall r, send_stable V (nth r W []) = true) ->
+  (forall r, slots_exclusive V (nth r W []) = true) ->
+  forall cap clob, cap_admissible V W cap -> clob_admissible V W clob ->
+  forall r pos, obs V W cap clob r pos = obs V W cap_atomic clob_none r pos.
+Proof. exact (msg_deterministic V W). Qed.
+Print Assumptions C11_any_arrival_order_deterministic.
+
+(* B: amgcl's ghost exchange (comm_pattern::start_exchange / finish_exchange, DistMsg.exch_round: Irecv per receive
+   neighbour, gather, Isend per send neighbour, Waitall, Waitall), repeated for any number of consecutive
+   products with the same matrix (request variables and buffers reused), with the patterns the constructor
+   computes for ANY column partition and ANY sorted in-range remote column lists: every rank's trace satisfies the
+   whole request discipline (a)-(f) of the shim, and for every admissible schedule the slices rank r reads from
+   recv.val after round m concatenate to x_m[global column] for r's remote columns in idx order -- the atomic
+   exchange Dist.exchange that C11_spmv_every_partition builds on (C11_ghost_exchange_delivers). *)
+Theorem C11_ghost_exchange_any_arrival_order (S : Scalar) (cparts : list nat) (rcs : list (list nat)) (tag : nat)
+        (xs : list (vec S)) :
+  length rcs = length cparts ->
+  (forall r, r < length cparts -> rc_ok cparts (nth r rcs [])) ->
+  let pats := comm_pattern cparts rcs in
+  let W := exch_rounds tag pats (map (chunks cparts) xs) in
+  (forall r, disciplined (vec S) (nth r W []) = true) /\
+  forall cap clob, cap_admissible (vec S) W cap -> clob_admissible (vec S) W clob ->
+  forall m r, m < length xs -> r < length cparts ->
+  exists slices : list (vec S),
+    round_obs W cap clob (nth r pats dflt_cpat) r m = map Some slices /\
+    concat slices = map (fun c => vget (nth m xs []) c) (nth r rcs []).
+Proof. exact (ghost_exchange_any_arrival_order cparts rcs tag xs). Qed.
+Print Assumptions C11_ghost_exchange_any_arrival_order.
+
+(* C (converse): a send that is never completed and whose buffer is written again admits two admissible schedules
+   with different results (any payload type with two distinct values). *)
+Theorem C11_unwaited_send_refuted (V : Type) (v1 v2 : V) : v1 <> v2 ->
+  all_waited V (nth 0 (bad_world V v1 v2) []) = false /\
+  cap_admissible V (bad_world V v1 v2) cap_atomic /\ cap_admissible V (bad_world V v1 v2) late_capture /\
+  clob_admissible V (bad_world V v1 v2) clob_none /\
+  obs V (bad_world V v1 v2) cap_atomic clob_none 1 0 = Some v1 /\
+  obs V (bad_world V v1 v2) late_capture clob_none 1 0 = Some v2 /\
+  obs V (bad_world V v1 v2) cap_atomic clob_none 1 0 <> obs V (bad_world V v1 v2) late_capture clob_none 1 0.
+Proof. exact (msg_unwaited_send_refuted V v1 v2). Qed.
+Print Assumptions C11_unwaited_send_refuted.
+
+(* D: the regression seeded by an independent reviewer (finish_exchange returns before MPI_Waitall when the rank
+   expects no ghost values; DistMsg.exch_round_early_return): two ranks, rank 1 needs column 0 of rank 0, rank 0
+   needs nothing, two consecutive products with vectors x, y.  Rank 0 never completes its first send; under the
+   admissible schedule that reads the buffer late, rank 1 receives y[0] for the FIRST product.  bin/check C11
+   reports this trace as "PMPI ... pending-send" (deterministically: it does not depend on the timing). *)
+Theorem C11_finish_exchange_early_return_refuted (S : Scalar) (x0 x1 y0 y1 : vec S) : vget x0 0 <> vget y0 0 ->
+  all_waited (vec S) (nth 0 (er_world x0 x1 y0 y1) []) = false /\
+  cap_admissible (vec S) (er_world x0 x1 y0 y1) cap_atomic /\ cap_admissible (vec S) (er_world x0 x1 y0 y1) er_late /\
+  clob_admissible (vec S) (er_world x0 x1 y0 y1) clob_none /\
+  obs (vec S) (er_world x0 x1 y0 y1) cap_atomic clob_none 1 0 = Some [vget x0 0] /\
+  obs (vec S) (er_world x0 x1 y0 y1) er_late clob_none 1 0 = Some [vget y0 0] /\
+  obs (vec S) (er_world x0 x1 y0 y1) cap_atomic clob_none 1 0 <> obs (vec S) (er_world x0 x1 y0 y1) er_late clob_none 1 0.
+Proof. exact (early_return_refuted x0 x1 y0 y1). Qed.
+Print Assumptions C11_finish_exchange_early_return_refuted.
+
+(* a concrete instance of B's world (the 3-rank example below, two consecutive products): program lengths,
+   the discipline checker evaluated by computation, and the pending interval of the sends (the Isend at position
+   2 / 7 of ranks 0 and 2 is pending until the second Waitall at position 4 / 9: the capture point ranges over 3..4) *)
+Example C11_msg_schedules_exist :
+  let A : crs QcS := mkCrs 4 [[(0, qc 2 1); (3, qc (-1) 1)]; [(1, qc 2 1); (0, qc 1 2); (2, qc 3 1)];
+                              [(2, qc 1 1); (1, qc (-1) 1)]; [(3, qc 4 1); (0, qc 5 1)]] in
+  let pats := dm_pattern (split A [2; 0; 2] [2; 0; 2]) in
+  let W := exch_rounds 1003 pats [[[qc 1 1; qc 2 1]; []; [qc 3 1; qc 4 1]]; [[qc 5 1; qc 6 1]; []; [qc 7 1; qc 8 1]]] in
+  map (fun p => length p) W = [10; 4; 10] /\
+  forallb (disciplined (vec QcS)) W = true /\
+  map (fun r => map (fun pos => limit (vec QcS) (nth r W []) pos 1) [2; 7]) [0; 2] = [[4; 9]; [4; 9]].
 Proof. vm_compute. repeat split; reflexivity. Qed.
 
 (* ------------------------------------------------------------------ *)
